@@ -58,7 +58,15 @@ def hostile(rng, k=3):
 
 
 def hostile_doc(rng):
-    h = lambda: hostile(rng)
+    used = []
+
+    def h():
+        # now and then the SAME string again in another role of the same document (text then attribute, code then title, ...)
+        if used and rng.random() < 0.3:
+            return rng.choice(used)
+        x = hostile(rng)
+        used.append(x)
+        return x
     atoms = [
         lambda: '![%s](<%s> "%s")' % (h().replace(']', ''), h().replace('>', '').replace('<', ''), h().replace('"', '\\"')),
         lambda: '![%s](%s)' % (h().replace(']', ''), h().replace(' ', '').replace(')', '').replace('(', '')),
